@@ -11,7 +11,7 @@ git apply -3 "$d/patch.diff" || { echo "APPLY-FAILED"; git reset -q --hard HEAD;
 git reset -q
 if [ $rebase = 1 ]; then cp "$d/patch.diff" "$d/patch.orig.diff"; git diff > "$d/patch.diff"; echo "rebased patch written"; fi
 echo "--- demo with patch:"; EDXML_SDK_ROOT=/repo /venv/bin/python "$d/demo.py" > /tmp/demo.out 2>&1; echo "demo rc=$?"; tail -3 /tmp/demo.out
-echo "--- tests with patch:"; /venv/bin/python -m pytest -q -p no:cacheprovider 2>&1 | grep ^FAILED | sed 's/ - .*//' | sort | diff - /tmp/baseline_failed.txt > /dev/null && echo "tests: same as baseline" || echo "tests: DIFFER from baseline"
+echo "--- tests with patch:"; /venv/bin/python -m pytest -q -p no:cacheprovider 2>&1 | grep ^FAILED | sed 's/ - .*//' | sort | diff - /verif/tools/baseline_failed.txt > /dev/null && echo "tests: same as baseline" || echo "tests: DIFFER from baseline"
 for p in "$@"; do
   echo "--- check $p:"; (cd /verif && VERIF_EVIDENCE_DIR=/tmp/evidence-seeded VERIF_SEED=${VERIF_SEED:-0} ./check $p 2>&1 | tail -3; )
 done
